@@ -57,8 +57,7 @@ Events(c, m) ==
                      totalLen |-> fTotal, certOff |-> fCertOff, fileLen |-> fileLen],
                     [ev |-> "HeaderFields", flags |-> c.flags, fw |-> c.fw, ts |-> c.ts, imageType |-> IF c.nxp THEN 7 ELSE 6, desc |-> fDesc],
                     [ev |-> "Layout", fileLen |-> fileLen, ok |-> layOk]>>
-      cert     == <<[ev |-> "CertHeader", at |-> certOff, magicOk |-> TRUE, major |-> 2, minor |-> 1,
-                     size |-> IF m = "cert_size_field_without_header" THEN certE - certOff - 12 ELSE certE - certOff],
+      cert     == <<[ev |-> "CertHeader", at |-> certOff, magicOk |-> TRUE, major |-> 2, minor |-> 1],
                     [ev |-> "RootKeyRecord", at |-> rkrAt, ca |-> ~c.isk, used |-> c.used, nKeys |-> c.nkeys, ctype |-> IF c.curve = 32 THEN 1 ELSE 2,
                      curveLen |-> c.curve, tableLen |-> tableLen, keyAt |-> keyAt, end |-> rkrE, keyInTable |-> TRUE, rotkthOk |-> TRUE]>>
                   \o (IF c.isk
